@@ -467,3 +467,56 @@ pub fn location_in_text(text: &[u8], l: &Srcloc, file: &str) -> bool {
 
 #[allow(dead_code)]
 fn _unused(_: Rc<SExp>, _: T) {}
+
+/// A harness-side reading of a program's parameter list (for generating argument trees for shipped
+/// programs): returns the (mod PARAMS ...) parameter pattern, if the text has that shape.
+pub fn mod_params(text: &[u8]) -> Option<crate::lang::Pat> {
+    use crate::lang::Pat;
+    fn to_pat(n: &Node) -> Option<Pat> {
+        match n {
+            Node::Leaf { text, .. } => {
+                if text == "()" {
+                    Some(Pat::Nil)
+                } else if text.starts_with('"') || text.starts_with('\'') || text.chars().next().map(|c| c.is_ascii_digit()).unwrap_or(true) {
+                    None
+                } else {
+                    Some(Pat::Name(text.clone()))
+                }
+            }
+            Node::List { items, tail, .. } => {
+                if items.len() == 3 {
+                    if let Node::Leaf { text, .. } = &items[0] {
+                        if text == "@" {
+                            if let Node::Leaf { text: name, .. } = &items[1] {
+                                return Some(Pat::At(name.clone(), Box::new(to_pat(&items[2])?)));
+                            }
+                        }
+                    }
+                }
+                let mut ps = vec![];
+                for i in items {
+                    ps.push(to_pat(i)?);
+                }
+                let t = match tail {
+                    Some(t) => to_pat(t)?,
+                    None => Pat::Nil,
+                };
+                Some(Pat::list_tail(ps, t))
+            }
+        }
+    }
+    match expected(text) {
+        Exp::Forms(forms) => {
+            let f = forms.first()?;
+            if let Node::List { items, .. } = f {
+                if let Some(Node::Leaf { text, .. }) = items.first() {
+                    if text == "mod" && items.len() >= 3 {
+                        return to_pat(&items[1]);
+                    }
+                }
+            }
+            None
+        }
+        _ => None,
+    }
+}
